@@ -17,6 +17,7 @@ package geojson
 // rvOpen the statement needs a two-state frame argument over the object tree (see DESIGN): not claimed here, bounded suite only.
 //@ spec func rvOpen(o Object) bool { dyn(o) == typeid(*Feature) || dyn(o) == typeid(*Circle) || dyn(o) == typeid(*GeometryCollection) || dyn(o) == typeid(*FeatureCollection) }
 
+//@ spec func jsonWS(b int) bool { b == 32 || b == 9 || b == 10 || b == 13 }
 //@ func Parse
 //@   props C05 C07 C08
 //@   arith order
@@ -25,6 +26,8 @@ package geojson
 //@   ensures C07Empty: len(data) == 0 ==> result1 != nil
 //@   ensures RequireValid: result1 == nil && opts != nil && opts.RequireValid && !rvOpen(result0) ==> oValidS(result0)
 //@   loop 0 invariant i >= 0 && len(data) <= len(old(data))
+//@   loop 0 invariant Suffix: forall k int :: (0 <= k && k < len(data)) ==> data[k] == old(data)[k + (len(old(data)) - len(data))]   // what is left is a suffix of the input ...
+//@   loop 0 invariant C07LeadWS: forall k int :: (0 <= k && k < len(old(data)) - len(data)) ==> jsonWS(old(data)[k])   // ... and only JSON whitespace (RFC 8259: space, tab, LF, CR) has been skipped in front of it
 //@   loop 0 decreases len(data)
 //@   decreases len(data) ; 2
 
@@ -70,6 +73,7 @@ package geojson
 //@   ensures old(*ex) != nil ==> *ex == old(*ex)
 //@   ensures forall e *extra :: (old($alloc)[e] && e != old(*ex)) ==> e.members == old(e.members)
 //@   ensures Untouched: len(keys.members) == 0 ==> *ex == old(*ex)
+//@   ensures Created: len(keys.members) > 0 ==> *ex != nil
 //@   ensures Members: *ex != nil ==> ((*ex).members == ite(len(keys.members) == 0, old((*ex).members), keys.members))
 //@   ensures NewExtra: (old(*ex) == nil && *ex != nil) ==> ((*ex).dims == 0 && len((*ex).values) == 0 && !old($alloc)[*ex])
 
@@ -168,7 +172,7 @@ package geojson
 //@   stmt polygon.go:"g.base = *poly" assert PExt: ringOK(geometry.polyExt(poly))
 //@   stmt polygon.go:"g.base = *poly" assert PHoles: forall h int :: (0 <= h && h < geometry.polyNHoles(poly)) ==> ringOK(geometry.polyHole(poly, h))
 //@   stmt polygon.go:"o = &g" assert GExt: geometry.polyExt(g.base) == geometry.polyExt(poly) && geometry.polyNHoles(g.base) == geometry.polyNHoles(poly) && (forall h int :: geometry.polyHole(g.base, h) == geometry.polyHole(poly, h))
-//@   stmt polygon.go:"o = NewRect(geometry.Rect{" assert RectShortcut: len(holes) == 0 && len(exterior) == 5 && extra == nil && geometry.ptAt(exterior,0).X < geometry.ptAt(exterior,2).X && geometry.ptAt(exterior,0).Y < geometry.ptAt(exterior,2).Y   // C08: the Rect representation is chosen only for a hole-free, extra-free 5-position ring with Min < Max
+//@   stmt polygon.go:"o = NewRect(geometry.Rect{" assert RectShortcut: len(holes) == 0 && len(exterior) == 5 && extra == nil && len(keys.members) == 0 && geometry.ptAt(exterior,0).X < geometry.ptAt(exterior,2).X && geometry.ptAt(exterior,0).Y < geometry.ptAt(exterior,2).Y   // C08: the Rect representation is chosen only for a hole-free, extra-free 5-position ring with Min < Max of a document without foreign members (nothing the Polygon representation would carry is lost)
 //@   stmt polygon.go:"o = NewRect(geometry.Rect{" assert RectExact: geometry.ptAt(exterior,1).X == geometry.ptAt(exterior,2).X && geometry.ptAt(exterior,1).Y == geometry.ptAt(exterior,0).Y && geometry.ptAt(exterior,3).X == geometry.ptAt(exterior,0).X && geometry.ptAt(exterior,3).Y == geometry.ptAt(exterior,2).Y && geometry.ptAt(exterior,4) == geometry.ptAt(exterior,0)   // C08 / C12: the ring IS the corner sequence Min, (Max.X,Min.Y), Max, (Min.X,Max.Y), Min of the rectangle that replaces it, so the point set does not depend on the representation option or on the start vertex
 //@   stmt polygon.go:"o = &g" assert GHoles: holesOK(g.base)
 //@   stmt polygon.go:"o = &g" use polyShapeCopy(poly, g.base)
